@@ -25,7 +25,7 @@ ASSUMPTIONS = [
     "PYTHONHASHSEED is fixed (0) in both the sequence process and the fresh baseline process",
     "for compiled ACLs only result equality under reuse is required (matching overwrites their scratch 'match' field)",
 ]
-FLOORS = {"quick": {"jobs_in_sequences": 60, "fresh_baselines": 30, "snapshots_compared": 180, "repeated_jobs": 6, "same_vendor_other_hw": 6, "acl_jobs": 6, "rule_mutating_logic_jobs": 4},
+FLOORS = {"quick": {"jobs_in_sequences": 60, "fresh_baselines": 30, "snapshots_compared": 180, "repeated_jobs": 6, "same_vendor_other_hw": 6, "acl_jobs": 6, "rule_mutating_logic_jobs": 4, "nested_dropped_row_jobs": 8},
           "thorough": {"jobs_in_sequences": 2500, "fresh_baselines": 400, "snapshots_compared": 7500, "repeated_jobs": 200, "same_vendor_other_hw": 200, "acl_jobs": 200}}
 NPROC = {"quick": 8, "thorough": 16}
 FAMILIES = {"huawei": ["Huawei", "Huawei CE6870", "Huawei NE40E-X8", "Huawei Quidway S5300"], "huawei ce": ["Huawei CE0000", "Huawei NE40E-X8", "Huawei Quidway S5700"],
@@ -41,6 +41,17 @@ HAND = [
     {"kind": "hand", "model": "Huawei Quidway S5700", "old": "interface GE1/0/1\n trust dscp\n stp edged-port enable\n", "new": "interface GE1/0/1\n trust 8021p\n"},
     {"kind": "hand", "model": "Huawei CE6870", "old": "interface 10GE1/0/1\n trust dscp\n stp edged-port enable\n", "new": "interface 10GE1/0/1\n trust 8021p\n"},
     {"kind": "hand", "model": "Huawei NE40E-X8", "old": "interface GE1/0/1\n trust dscp\n stp edged-port enable\n", "new": "interface GE1/0/1\n trust 8021p\n"},
+]
+
+# rows below the top level that rule matching drops from its working copy (ignored / unknown to the rulebook) or that a
+# vendor diff logic filters (LAG members): a diff that works on the caller's own sub-trees shows up only on these
+NESTED = [
+    {"kind": "hand", "model": "Cisco Catalyst", "old": "interface GigabitEthernet1\n no ip address\n description a\n", "new": "interface GigabitEthernet1\n no ip address\n description b\n"},
+    {"kind": "hand", "model": "Arista", "old": "router bgp 1\n no neighbor 1.1.1.1 shutdown\n neighbor 1.1.1.1 remote-as 2\n", "new": "router bgp 1\n no neighbor 1.1.1.1 shutdown\n neighbor 1.1.1.1 remote-as 3\n"},
+    {"kind": "hand", "model": "Cisco Nexus", "old": "interface Ethernet1/1\n channel-group 1 mode active\n mtu 9000\ninterface port-channel1\n mtu 9000\n",
+     "new": "interface Ethernet1/1\n channel-group 1 mode active\n mtu 9100\ninterface port-channel1\n mtu 9100\n"},
+    {"kind": "hand", "model": "Huawei OptiXtrans", "old": "foo bar\n baz qux\n  deep er\n", "new": "foo bar\n baz qux\n  deep er\n quux 1\n"},
+    {"kind": "hand", "model": "B4com", "old": "foo bar\n baz qux\n", "new": "foo bar\n baz quz\n"},
 ]
 
 
@@ -96,6 +107,7 @@ def all_jobs():
         if i % 4 == 2:
             jobs.append({"kind": "corpus", "sample": s[0], "model": corpus.STUB_HW[s[1]], "vk": s[1], "acl": "auto"})
     jobs += HAND
+    jobs += NESTED
     jobs += SYNTH * 3
     return jobs
 
@@ -121,6 +133,7 @@ def plan(tier, seed):
             seq.insert(rng.randrange(len(seq)), rng.choice(others))
         seq += [dict(j) for j in rng.sample(HAND[7:10], 2)]  # two hardware families of one vendor on rules the templates render differently
         seq += [dict(rng.choice(SYNTH)) for _ in range(2)]  # rules whose logic writes to its rule argument, twice per sequence
+        seq += [dict(j) for j in rng.sample(NESTED, 2)]     # nested rows that matching / vendor diff logic drops from its working copy
         jc = [j for j in jobs if j.get("sample", "").startswith("juniper_comments") and not j.get("acl")]
         seq += [dict(rng.choice(jc)) for _ in range(2)]     # the vendor diff logic that writes into the matched rule's attributes
         rng.shuffle(seq)
@@ -253,6 +266,8 @@ def run_seq(spec, acc):
             acc.count("acl_jobs")
         w = {"seq": seq[:pos + 1], "position": pos, "job": job}
         synth = job["kind"] == "synth"
+        if any(job.get("old") == n["old"] and job["model"] == n["model"] for n in NESTED):
+            acc.count("nested_dropped_row_jobs")
         if synth:
             acc.count("rule_mutating_logic_jobs")
         rb = synth_rb(hw) if synth else rulebook.get_rulebook(hw)
